@@ -10,8 +10,10 @@ mod dens;
 mod report;
 mod sched;
 mod script;
+mod tree;
 mod util;
 
+mod c02;
 mod c06;
 mod c16;
 mod c17;
@@ -70,6 +72,7 @@ fn main() {
     let mut report = Report::new(&prop.to_uppercase(), &args.tier, args.seed);
     util::install_quiet_panic_hook();
     match prop.as_str() {
+        "c02" => c02::run(&args, &mut report),
         "c06" => c06::run(&args, &mut report),
         "c16" => c16::run(&args, &mut report),
         "c17" => c17::run(&args, &mut report),
